@@ -66,6 +66,8 @@ type isoEv struct {
 	Call   string `json:"call,omitempty"`
 	W      *int   `json:"w,omitempty"`      // doTrafficRouting: weight
 	FailAt *int   `json:"failAt,omitempty"` // the k-th write of the call and all later ones fail
+	// watch: reconciles of other rollouts that run while this reconcile's Watch call is in flight
+	Nested []int `json:"nested,omitempty"`
 }
 
 // isoRound rounds a duration to the nearest 100 s (all generated periods are multiples of 100 s,
